@@ -42,6 +42,31 @@ TECH = "Lean 4 theorems over a hand-written executable model; tie = decision exp
 NOT_APPLICABLE = {}
 
 PROPS = {
+    "C01": dict(
+        level="proof", engines=[eng("qc", 3000, 60000)], labels=["C01", "C05"],
+        text="Theorems (Props/C01.lean): success returns exactly the value the quorum function returned with 'quorum' on its last invocation; every earlier invocation said 'no quorum'; "
+             "the invocation log is exactly the list of cumulative reply sets of the consumed prefixes that end in a reply (one invocation per newly arrived successful reply, in order); "
+             "every entry is a reply arrival (never a failed node), one entry per node, sets only grow; the async loop invokes QF like the sync one. Tie: loop parameters (Tie/C02), error guard "
+             "and reply-channel capacity regenerated from the tree; digests of the loops, Async accessors and the four client templates; exact differential run of all 13 variants with gated and "
+             "burst arrivals: QF invocation log, request identity, overlap counter, provenance stamps (call, node) in every entry.",
+        note="Trusted: Lean kernel; gx; the loop model. Provenance (each entry is what that node's handler produced for this call's request) is a statement about routing (C05); here it is "
+             "checked on the real code by the stamps the puppet handlers put into replies, not proved.",
+    ),
+    "C06": dict(
+        level="proof", engines=[eng("oneway", 1500, 30000), eng("qc", 1500, 20000)], labels=["C06"],
+        text="Theorems (Props/C06.lean): without a per-node function every node is targeted with the caller's request; with f, node i is targeted with exactly f(request, i) and nodes for which f "
+             "yields nothing are not targeted; targets are issued once each, in configuration order; the expected-replies counter equals the number of targets; the multicast wait loop returns "
+             "exactly when every sent message is confirmed, at once with no-send-waiting. Tie: skip test, counter decrement, plain hand-off statements, wait-loop condition and waitForSend "
+             "regenerated from the four per-node loops and channel.go; digests; engines oneway (blocked handlers: return without waiting, payload and count per node) and qc (payloads of quorum calls).",
+        note="Trusted: Lean kernel; gx; 'without waiting for the connection' is observed with a generous bound on an otherwise idle channel; HTTP/2 flow control behind a blocked handler is transport behaviour outside the model.",
+    ),
+    "C07": dict(
+        level="proof", engines=[eng("qc", 3000, 60000)], labels=["C07"],
+        text="Theorems (Props/C07.lean): the reported error list has exactly one entry per consumed error arrival, in order; an error arrival never changes the reply set; failures interleaved "
+             "before a quorum reply do not prevent success (tolerates_failures); an Incomplete outcome lists exactly the failures of a history in which all targeted nodes answered; status round trip "
+             "(C13). Tie: error guards and loop parameters regenerated; digests of sender/receiver/cancelPendingMsgs/connect/routeResponse and the error formatters; engine qc checks code + message per failing node in the error text.",
+        note="Trusted: as C01. The liveness half ('a waiting call is completed when the connection breaks') is checked by the fault engine of C09/C10 (connection resets while calls wait), not proved here.",
+    ),
     "C11": dict(
         level="proof", engines=[eng("corr", 2000, 40000)], labels=["C11"],
         text="Theorems (Props/C11.lean): the object starts at LevelNotSet with no reply; the watcher invariant (closed iff level reached or completed) is preserved by Watch at any "
